@@ -664,7 +664,9 @@ func (r *inmemRoles) expiryFactWith(f ir.Fact, alsoNow func(ssa.Value) bool, dep
 		}
 		isNow := func(v ssa.Value) bool {
 			cl, ok := ir.Resolve(v).(*ssa.Call)
-			return (ok && ir.CalleeFullName(cl) == "time.Now") || (alsoNow != nil && alsoNow(v))
+			// ... or a clock reading handed down to a private helper as a parameter (z_b_inmem.go; how fresh the reading
+			// is at the call sites is the fresh-clock rule's question)
+			return (ok && ir.CalleeFullName(cl) == "time.Now") || (alsoNow != nil && alsoNow(v)) || r.clockMoment(v, 0)
 		}
 		// a function of the repository that IS the expiry decision (true exactly for "has an expiration and it is
 		// before now"), applied to the current time
